@@ -54,7 +54,7 @@ def kind_of(rec, P, whats, grade):
                 return 'dtostre-precision15-accumulated-error'
             if P < 15 and band == 'big' and grade == 2:
                 return 'dtostre-integer-digits-truncated'
-    return '%s:%s:%s:p%d' % (cfg, '+'.join(sorted(w)), band, P)
+    return '%s:%s:%s' % (cfg, '+'.join(sorted(w)), band)
 
 def nontrivial(rec):
     if rec['c'] != 'fin' or rec['d'] == [0]:
@@ -149,9 +149,14 @@ def run(pid, tier):
     w = lib.workdir(pid)
     mres = {}
     def mpart():
-        cfgs = ['MCGFormat_4.cfg'] if tier == 'quick' else ['MCGFormat_5.cfg', 'MCGFormat_6.cfg']
-        for c in cfgs:
-            mres[c] = lib.tlc('MCGFormat', c, workers=6 if tier == 'quick' else 8, timeout=850, xmx='6g')
+        def one(c):
+            mres[c] = lib.tlc('MCGFormat', c, workers=6, timeout=850, xmx='5g')
+        if tier == 'quick':
+            one('MCGFormat_4.cfg')
+        else:
+            with concurrent.futures.ThreadPoolExecutor(max_workers=2) as ex:
+                list(ex.map(one, ['MCGFormat_5a.cfg', 'MCGFormat_5b.cfg']))
+            one('MCGFormat_6.cfg')
     th = threading.Thread(target=mpart)
     th.start()
     nrand, estride = (1200, 13) if tier == 'quick' else (45000, 1)
@@ -174,7 +179,7 @@ def run(pid, tier):
     rep.cov['exhaustive'] = True
     rep.cov['explanation'] = ('exhaustive for the specification lemmas on all expansions of <= %s digits, exponents -8..8, precisions 1..6; the library is checked on '
                               'the structured value set (all powers of ten, d.ddd5 boundaries, zero digits at every position, subnormals, specials) and sampled '
-                              'on seeded random bit patterns' % ('4' if tier == 'quick' else '5 (6 digits: exponents -5,-1,5, precisions 5,6)'))
+                              'on seeded random bit patterns' % ('4' if tier == 'quick' else '5 (and of 6 digits for exponents -5, 4 and precisions 4, 5)'))
     shutil.rmtree(w, ignore_errors=True)
     return rep.finish()
 
